@@ -181,6 +181,8 @@ pub struct World {
     pub dead: Option<String>,
     pub app_lists: std::sync::Arc<Vec<Vec<L>>>,
     pub last_rto_event: Option<(Who, u64, u64)>, // (who, issued at, duration)
+    /// the previous event only moved the clock (two clock moves in a row equal one, so explorers skip the second)
+    pub just_advanced: bool,
 }
 
 fn errk(e: StunAgentError) -> ErrK {
@@ -216,6 +218,7 @@ impl World {
             dead: None,
             app_lists,
             last_rto_event: None,
+            just_advanced: false,
         }
     }
 
@@ -321,6 +324,7 @@ impl World {
     }
 
     fn after_send(&mut self, r: Result<Result<stun_rs::TransactionId, StunAgentError>, String>, app: usize, request: bool, _m: MessageMethod) -> Obs {
+        self.just_advanced = false;
         let at = self.now;
         match r {
             Err(p) => {
@@ -374,6 +378,7 @@ impl World {
     }
 
     pub fn timer(&mut self) -> Obs {
+        self.just_advanced = false;
         let at = self.instant();
         match guard(|| self.client.on_timeout(at)) {
             Err(p) => {
@@ -390,6 +395,7 @@ impl World {
     }
 
     pub fn recv(&mut self, bytes: &[u8]) -> Obs {
+        self.just_advanced = false;
         let at = self.instant();
         match guard(|| self.client.on_buffer_recv(bytes, at)) {
             Err(p) => {
@@ -412,6 +418,7 @@ impl World {
         if t > self.now {
             self.now = t;
         }
+        self.just_advanced = true;
         Obs { at: self.now, res: CallRes::Advanced, events: vec![] }
     }
 
